@@ -127,7 +127,7 @@ func c08Units(t core.Tier) []c08Unit {
 			}
 			us = append(us, c08Unit{k, b, "size", 0})
 		}
-		us = append(us, c08Unit{k, 32, "big", 0})
+		us = append(us, c08Unit{k, 32, "big", 0}, c08Unit{k, 2, "huge", 0}, c08Unit{k, 32, "huge", 0})
 		if t == core.Thorough {
 			us = append(us, c08Unit{k, 5, "size", 0}, c08Unit{k, 7, "size", 0}, c08Unit{k, 16, "big16", 0})
 		}
@@ -255,6 +255,16 @@ func (c08) RunUnit(t core.Tier, u int, r *core.Reporter) {
 			}
 			run(ps2, sn, sn)
 		}
+	case "huge":
+		// windows whose count (or offset) is near the largest integer: "skip s
+		// rows, give me the rest"; offset + count does not fit an int
+		const max = int(^uint(0) >> 1)
+		ss := []int{0, 1, 3, max - 1, max}
+		ns := []int{0, 2, max - 3, max - 2, max - 1, max}
+		for _, R := range []int{0, 1, 4, 2*un.b + 2} {
+			run(c08PatternStore((1<<R)-1, R, ties), ss, ns)
+		}
+		run(c08PatternStore(0xb5, 8, ties), ss, ns)
 	case "big16":
 		sn := []int{0, 1, 15, 16, 17, 31, 32, 33}
 		for _, R := range []int{0, 15, 16, 17, 32, 33, 40} {
@@ -382,12 +392,13 @@ func c08Judge(c *c08Case, unl *c08Unlimited) (f *core.Failure, nontrivial bool, 
 		return mk("limited-failed", "rows", out.Describe()), false, "failed"
 	}
 	slice := func(rows []string) []string {
-		lo, hi := c.S, c.S+c.N
+		lo := c.S
 		if lo > len(rows) {
 			lo = len(rows)
 		}
-		if hi > len(rows) {
-			hi = len(rows)
+		hi := len(rows)
+		if c.N < hi-lo { // (never s+n: the sum of two large windows does not fit an int)
+			hi = lo + c.N
 		}
 		return rows[lo:hi]
 	}
@@ -446,12 +457,13 @@ func c08Judge(c *c08Case, unl *c08Unlimited) (f *core.Failure, nontrivial bool, 
 // c08TiesOK: rows are "T:key | T:value"; order is by value descending.
 func c08TiesOK(got, all []string, s, n int) string {
 	val := func(row string) string { return row[strings.Index(row, " | ")+3:] }
-	lo, hi := s, s+n
+	lo := s
 	if lo > len(all) {
 		lo = len(all)
 	}
-	if hi > len(all) {
-		hi = len(all)
+	hi := len(all)
+	if n < hi-lo {
+		hi = lo + n
 	}
 	if len(got) != hi-lo {
 		return fmt.Sprintf("length %d, want %d", len(got), hi-lo)
